@@ -476,7 +476,7 @@ static std::vector<MergeTask> mergeTasks(bool thorough)
                 ts.push_back({{0, 1}, {t0, t1}, {big, 1}});
                 ts.push_back({{2, 0}, {t1, t0}, {2, big}});
             }
-    const size_t maxFrames = thorough ? 10 : 8;
+    const size_t maxFrames = thorough ? 12 : 9;
     for (int t0 = 0; t0 < 7; ++t0)
         for (int t1 = 0; t1 < 7; ++t1)
             for (int t2 = 0; t2 < 7; ++t2)
@@ -702,7 +702,7 @@ struct HistLess
 
 static void runBfs(mc::Run& run, int maxDepth, char oracle)
 {
-    const uint64_t cap = 6u << 20;
+    const uint64_t cap = 12u << 20;
     size_t sz = sizeof(BfsShared) + cap * sizeof(BfsRec);
     auto sh = static_cast<BfsShared*>(mmap(nullptr, sz, PROT_READ | PROT_WRITE, MAP_SHARED | MAP_ANONYMOUS | MAP_NORESERVE, -1, 0));
     new (&sh->n) std::atomic<uint64_t>(0);
@@ -1111,7 +1111,7 @@ int main(int argc, char** argv)
                 (t.eps.size() == 2 ? two : three).push_back(t);
             run.round("all interleavings of 2 endpoint streams: 3 endpoint pairs x 7x7 templates x 8x8 variants", two.size(),
                       [&](W& w, uint64_t o) { runMergeTask(w, two[o], oracle); });
-            run.round(fmt("all interleavings of 3 endpoint streams with <= %d frames in total x 8 variant triples", thorough ? 10 : 8), three.size(),
+            run.round(fmt("all interleavings of 3 endpoint streams with <= %d frames in total x 8 variant triples", thorough ? 12 : 9), three.size(),
                       [&](W& w, uint64_t o) { runMergeTask(w, three[o], oracle); });
         }
         if (prop == "C17" || prop == "C18")
@@ -1137,7 +1137,7 @@ int main(int argc, char** argv)
                 if (run.out_of_time())
                     break;
             }
-            runBfs(run, thorough ? 12 : 8, oracle);
+            runBfs(run, thorough ? 11 : 9, oracle);
         }
         if (prop == "C05")
             run.rule = "every interleaving (merge) of the frame streams of 2 and 3 endpoints, each stream one of 7 templates over {F,I,L,U} x 8 variants "
@@ -1199,6 +1199,31 @@ int main(int argc, char** argv)
             });
             if (run.out_of_time())
                 break;
+        }
+        if (thorough && !run.out_of_time())
+        {
+            // one more fault on the hand-built stream that crosses the counter wrap
+            const BaseHist& h = bases[3];
+            struct T2 { int k1, p1, k2, p2; };
+            std::vector<T2> ts;
+            for (int k1 = 0; k1 < NFAULT; ++k1)
+                for (size_t p1 = 0; p1 < h.frames.size(); ++p1)
+                    for (int k2 = 0; k2 < NFAULT; ++k2)
+                        for (size_t p2 = 0; p2 < h.frames.size() + 1; ++p2)
+                            ts.push_back({k1, (int) p1, k2, (int) p2});
+            run.round("all fault sequences with exactly 4 faults on the base history that crosses the counter wrap", ts.size(), [&, ts](W& w, uint64_t o) {
+                const T2& t = ts[o];
+                FaultCase fc;
+                fc.base = 3;
+                auto seq = instances(h);
+                if (!applyFault(seq, t.k1, (size_t) t.p1))
+                    return;
+                fc.faults.push_back({t.k1, t.p1});
+                if (!applyFault(seq, t.k2, (size_t) t.p2))
+                    return;
+                fc.faults.push_back({t.k2, t.p2});
+                enumFaults(w, h, fc, seq, 2, 4);
+            });
         }
         run.extra.push_back({"max_faults", mc::Json::num((uint64_t) maxFaults)});
         run.rule = "4 base histories (real encoder output for [small,small,3-seg,small,2-seg,4-seg,small] at (0,40) and (64,100), the same for two "
